@@ -52,9 +52,8 @@ def runClaim (inp : List String) (out : String) : Option Res := do
            minted == d.amount / 1000000000000 && toC == d.tip / 1000000000000 && toC + toR == minted
          | _, _ => false)
       | _ => true
-    let wraps := match dec with | some d => decide (d.amount / 1000000000000 ≥ 9223372036854775808) | none => false
     pure { agree := m == outN, monitor := mon, nontrivial := outN.startsWith "ok", model := m,
-           finding := if wraps then "deposit-int64-wrap" else "" }
+           finding := "" }
   | _ => none
 
 end Driver
